@@ -293,6 +293,11 @@ def kstep_sx(st):
             inner = ' '.join('(%s)' % kstep_sx(x) for x in b[1])
             if b[0] == 'c':
                 return '(c (%s) %d %s)' % (inner, b[2], ' '.join(str(x) for x in b[3]))
+            if b[0] == 'l':
+                # == / != against a string ('s', quote, body cps), boolean ('b', 0/1, spelling) or null ('n', spelling) literal
+                lv = b[3]
+                lit = ('s %d %s' % (lv[1], ' '.join(str(x) for x in lv[2]))) if lv[0] == 's' else ('b %d %d' % (lv[1], lv[2])) if lv[0] == 'b' else 'n %d' % lv[1]
+                return '(l (%s) %d (%s))' % (inner, 1 if b[2] else 0, lit)
             return '(%s %s)' % (b[0], inner)
         return '10 ' + ' '.join('(%s)' % ' '.join(bq(b) for b in conj) for conj in st[1])
     if st[0] == 8:
